@@ -332,6 +332,22 @@ def run_view(exe, case, scratch, timeout=30.0):
             "list_ok": True, "reg_ok": not case.get("late_register", False), "reg_own": ""}
     w1line = "w1 %s\n" % vlist
 
+    def classify_list(data):
+        """what update_replicas_registry() makes of a list file: 2 = both names, 0 = nothing usable, else a hills file name cut short"""
+        t = data.decode("utf8", "replace").split()
+        if len(t) < 4 or t[0] != "stateFile" or t[2] != "hillsFile" or t[1] != vstate:
+            return 0
+        return 2 if t[3] == vhills else 100 + len(t[3])
+
+    def classify_reg(line):
+        t = line.split()
+        if len(t) < 2:
+            return 0
+        return 2 if t[1] == vlist else 100 + len(t[1])
+
+    view["lv"] = 2
+    view["rv"] = 0 if case.get("late_register", False) else 2
+
     def finish_rewrite():
         """second half of a state-file rewrite delivered in two stages: the new state file becomes visible"""
         if view.get("mid"):
@@ -396,12 +412,15 @@ def run_view(exe, case, scratch, timeout=30.0):
                 atomic_write(vhills, hb[:kk])
                 view["hills_bytes"] = kk
             elif ev[0] == "pl":
-                atomic_write(vlist, full_list if ev[1] is None else full_list[:ev[1]])
+                cut = full_list if ev[1] is None else full_list[:ev[1]]
+                atomic_write(vlist, cut)
                 view["list_ok"] = ev[1] is None or ev[1] >= len(full_list)
+                view["lv"] = classify_list(cut)
             elif ev[0] == "pg":
                 if view["registered"]:
                     atomic_write(regr, (view["reg_own"] + (w1line if ev[1] is None else w1line[:ev[1]])).encode())
                     view["reg_ok"] = ev[1] is None or ev[1] >= len(w1line)
+                    view["rv"] = classify_reg(w1line if ev[1] is None else w1line[:ev[1]])
             elif ev[0] == "pt":
                 if not view.get("mid") and view["p_state_sig"] is not None:
                     sb = read_bytes(p_files()[0]) or b""
@@ -418,6 +437,8 @@ def run_view(exe, case, scratch, timeout=30.0):
             hb = read_bytes(p_files()[1])
             rec["reclen"] = record_length(hb) if hb and b"}\n" in hb else None
             rec["view_hills_bytes"] = view["hills_bytes"]
+            rec["lv"] = view["lv"]
+            rec["rv"] = view["rv"]
             rec["mid"] = bool(view.get("mid"))
             rec["state_partial"] = view["state_partial"]
             rec["view_state_step"] = None if view["state_partial"] else state_step(vstate)
